@@ -315,8 +315,10 @@ func C10(c *run.Ctx) {
 								if processed {
 									c.Violate(run.Violation{Kind: "unauthenticated-request-processed", Key: fmt.Sprintf("unauthenticated-request-processed %s endpoint=%s", effWhy, ep), Detail: "request processed although the decision function says reject: " + effWhy, History: hist})
 								} else if out.ErrName != "invalid_client" && out.ErrName != "invalid_request" {
-									// other refusals (e.g. the credential itself being refused first) are fine as long as nothing changed
+									// the statement names the two classes a failed client authentication is answered with
 									c.Count("c10_rejected_other_class:"+out.ErrName, 1)
+									c.Violate(run.Violation{Kind: "rejection-class", Key: fmt.Sprintf("rejection-class %s endpoint=%s got=%s", effWhy, ep, out.ErrName),
+										Detail: "a request that failed client authentication was answered " + out.ErrName + ": " + world.ErrDetail(out.Err), History: hist})
 								}
 								for _, cl := range calls {
 									if world.TokenTableWrites[cl.Method] && cl.Err == "" {
